@@ -211,7 +211,31 @@ impl Prop for C13 {
         }
         ctx.sub();
         let got: Result<Result<Decimal, DecimalError>, String> =
-            if is32 { catch(|| Decimal::try_from(f32::from_bits(bits as u32))) } else { catch(|| Decimal::try_from(f64::from_bits(bits))) };
+            if is32 {
+                catch(|| {
+                    let f = f32::from_bits(bits as u32);
+                    let a = Decimal::try_from(f);
+                    let b: Result<Decimal, DecimalError> = f.try_into();
+                    let c = <Decimal as TryFrom<f32>>::try_from(f);
+                    let key = |r: &Result<Decimal, DecimalError>| r.as_ref().map(|d| (d.coefficient(), d.n_frac_digits())).map_err(|e| format!("{e:?}"));
+                    if key(&a) != key(&b) || key(&a) != key(&c) {
+                        panic!("entry points disagree: Decimal::try_from(f) = {:?}, f.try_into() = {:?}, <Decimal as TryFrom<f32>>::try_from(f) = {:?}", a, b, c);
+                    }
+                    a
+                })
+            } else {
+                catch(|| {
+                    let f = f64::from_bits(bits);
+                    let a = Decimal::try_from(f);
+                    let b: Result<Decimal, DecimalError> = f.try_into();
+                    let c = <Decimal as TryFrom<f64>>::try_from(f);
+                    let key = |r: &Result<Decimal, DecimalError>| r.as_ref().map(|d| (d.coefficient(), d.n_frac_digits())).map_err(|e| format!("{e:?}"));
+                    if key(&a) != key(&b) || key(&a) != key(&c) {
+                        panic!("entry points disagree: Decimal::try_from(f) = {:?}, f.try_into() = {:?}, <Decimal as TryFrom<f64>>::try_from(f) = {:?}", a, b, c);
+                    }
+                    a
+                })
+            };
         let shown = match &got {
             Ok(Ok(d)) => format!("Ok({} @{})", d.coefficient(), d.n_frac_digits()),
             Ok(Err(e)) => format!("Err({e:?})"),
